@@ -135,6 +135,30 @@ Proof.
   - eapply Permutation_NoDup; [symmetry; exact P' | apply retained_nodup].
 Qed.
 
+(* C03 / C06 (stranded) for every route: k-mers = retained k-mers, links = links of the reads between retained k-mers *)
+Theorem edges_are_observed_routes K st thr mode route (lreads : list lread) order g :
+  4 <= K -> Forall (fun r => wf_dna (fst r)) lreads -> NoDup order ->
+  direct K st thr mode route lreads order = Some g ->
+  Permutation (graph_kmers K st g) (retained K st thr (map fst lreads)) /\
+  forall w, In w (graph_links K st g) <-> In w (spec_links K st thr (map fst lreads)).
+Proof.
+  intros HK Hwf Hnd Hd. rewrite (direct_routes_eq K st thr mode lreads order HK Hwf Hnd route 0) in Hd.
+  now apply (edges_are_observed_direct K st thr mode lreads order g).
+Qed.
+Theorem stranded_exact_routes K thr mode route (lreads : list lread) order g :
+  4 <= K -> Forall (fun r => wf_dna (fst r)) lreads -> NoDup order ->
+  direct K true thr mode route lreads order = Some g ->
+  NoDup (graph_kmers K true g) /\
+  (forall x, In x (graph_kmers K true g) <->
+             In x (flat_map (kmers K) (map fst lreads)) /\
+             (thr <= N.of_nat (length (filter (dna_eqb x) (flat_map (kmers K) (map fst lreads)))))%N) /\
+  (forall w, In w (graph_links K true g) <->
+             In w (flat_map (kmers (S K)) (map fst lreads)) /\ In (firstn K w) (graph_kmers K true g) /\ In (skipn 1 w) (graph_kmers K true g)).
+Proof.
+  intros HK Hwf Hnd Hd. rewrite (direct_routes_eq K true thr mode lreads order HK Hwf Hnd route 0) in Hd.
+  now apply (stranded_exact_direct K thr mode lreads order g).
+Qed.
+
 Print Assumptions direct_routes_eq.
 Print Assumptions direct_route_correct.
 Print Assumptions graph_rc_invariant_routes_total.
